@@ -522,6 +522,28 @@ def handle (st : DState) (line : String) : DState × String :=
       let (s, c) := dumpSym acc.2 nm
       (s :: acc.1, c)) ([], st.ctx)
     ({ st with ctx := c }, "STATE " ++ "|".intercalate parts.reverse)
+  else if cmd = "INVENTORY" then
+    -- every interned symbol that is bound, sorted by name (bytewise, as Rust sorts strings)
+    let names := (st.ctx.obarray.toList.filter (fun (_, i) =>
+      match st.ctx.syms[i]? with | some sy => !sy.items.isEmpty | none => false)).map (·.1)
+    let names := names.toArray.qsort (fun a b => a.toUTF8.toList < b.toUTF8.toList) |>.toList
+    let (parts, c) := names.foldl (fun (acc : List String × Ctx) nm =>
+      let (s, c) := dumpSym acc.2 nm
+      (s :: acc.1, c)) ([], st.ctx)
+    let parts := parts.reverse
+    if rest.trimAscii.toString = "diff" then
+      let c0 := Ctx.initial
+      let names0 := (c0.obarray.toList.filter (fun (_, i) =>
+        match c0.syms[i]? with | some sy => !sy.items.isEmpty | none => false)).map (·.1)
+      let names0 := names0.toArray.qsort (fun a b => a.toUTF8.toList < b.toUTF8.toList) |>.toList
+      let parts0 := (names0.foldl (fun (acc : List String × Ctx) nm =>
+        let (s, c) := dumpSym acc.2 nm
+        (s :: acc.1, c)) ([], c0)).1
+      let out := parts.filter (fun p => !parts0.contains p)
+      let gone := (names0.filter (fun n => !names.contains n)).map ("-" ++ ·)
+      ({ st with ctx := c }, "INV " ++ "|".intercalate (out ++ gone))
+    else
+    ({ st with ctx := c }, "INV " ++ "|".intercalate parts)
   else (st, "BADCMD")
 
 partial def loop (h : IO.FS.Stream) (out : IO.FS.Stream) (st : DState) : IO Unit := do
